@@ -86,60 +86,64 @@ pub fn purity_stream(ctx: &mut Ctx) {
     let clause_reuse = "a call on buffers overwritten in place gives what it gives on a fresh thread with fresh strings (no state is carried from one call to the next)";
     let n = ctx.n(400, 6000);
     for k in 0..n {
-        let (t, twin) = twin_texts(&mut ctx.rng);
-        let (i1, i2) = *ctx.rng.pick(INDENT_TWINS);
-        let (s1, s2) = *ctx.rng.pick(INDENT_TWINS);
+        // one case in four: a single token (the whole text is one word: what a call measures last is
+        // what the next call measures first)
+        let (t, twin) = if k % 4 == 1 {
+            let (x, y) = *ctx.rng.pick(TWINS);
+            if ctx.rng.chance(1, 2) { (x.to_string(), y.to_string()) } else { (y.to_string(), x.to_string()) }
+        } else {
+            twin_texts(&mut ctx.rng)
+        };
+        // one case in four without indents (nothing is measured before the text)
+        let ((i1, i2), (s1, s2)) = if k % 4 == 2 { (("", ""), ("", "")) } else { (*ctx.rng.pick(INDENT_TWINS), *ctx.rng.pick(INDENT_TWINS)) };
         // widths: small, around the texts, and — one case in eight — a wide layout (column widths
         // beyond 1024, where size caps of caches sit)
         let w = if k % 8 == 0 { [2100usize, 2101, 4200, 70_000][ctx.rng.below(4)] } else { gen::width_for(&mut ctx.rng, &t).min(40) };
         let mut o = gen::options(&mut ctx.rng, w);
         let mut buf = String::with_capacity(t.len().max(twin.len()) + 8);
-        buf.push_str(&t);
         o.ii = String::with_capacity(32);
-        o.ii.push_str(i1);
         o.si = String::with_capacity(32);
-        o.si.push_str(s1);
         ctx.count("purity_cases");
-        let mut failed = false;
-        for (name, f) in &eps {
-            let a = call(*f, &buf, &o);
-            let b = call(*f, &buf, &o);
-            if a != b {
-                ctx.fail(clause_twice, format!("{}({}, {}) = {} the first time and {} the second time", name, crate::proto::show(&buf), o.show(), short(&a), short(&b)), None);
-                failed = true;
-                break;
-            }
-            ctx.oracle_ok();
-        }
-        if failed {
-            continue;
-        }
         // `Options::new(width)` / a bare width are the documented defaults of the active feature set
         // (the functions that pick them are cfg-dependent and otherwise never compared)
         {
-            let w = o.width;
-            let d1 = catch_unwind(AssertUnwindSafe(|| format!("{:?}", textwrap::wrap(&buf, w)))).unwrap_or_else(|_| "panic".into());
-            let d2 = catch_unwind(AssertUnwindSafe(|| format!("{:?}", textwrap::wrap(&buf, Opt::crate_default(w).to_options())))).unwrap_or_else(|_| "panic".into());
-            let d3 = catch_unwind(AssertUnwindSafe(|| format!("{:?}", textwrap::wrap(&buf, textwrap::Options::new(w))))).unwrap_or_else(|_| "panic".into());
+            let d1 = catch_unwind(AssertUnwindSafe(|| format!("{:?}", textwrap::wrap(&t, w)))).unwrap_or_else(|_| "panic".into());
+            let d2 = catch_unwind(AssertUnwindSafe(|| format!("{:?}", textwrap::wrap(&t, Opt::crate_default(w).to_options())))).unwrap_or_else(|_| "panic".into());
+            let d3 = catch_unwind(AssertUnwindSafe(|| format!("{:?}", textwrap::wrap(&t, textwrap::Options::new(w))))).unwrap_or_else(|_| "panic".into());
             if d1 != d2 || d3 != d2 {
-                ctx.fail("a bare width and Options::new(width) mean the documented default options", format!("wrap({}, {}) = {} / {} with Options::new, but {} with the documented defaults spelled out", crate::proto::show(&buf), w, short(&d1), short(&d3), short(&d2)), None);
+                ctx.fail("a bare width and Options::new(width) mean the documented default options", format!("wrap({}, {}) = {} / {} with Options::new, but {} with the documented defaults spelled out", crate::proto::show(&t), w, short(&d1), short(&d3), short(&d2)), None);
                 continue;
             }
             ctx.oracle_ok();
         }
-        // same addresses, same byte lengths, different content
-        let before = format!("{} / initial_indent {} / subsequent_indent {}", crate::proto::show(&buf), crate::proto::show(&o.ii), crate::proto::show(&o.si));
-        buf.clear();
-        buf.push_str(&twin);
-        o.ii.clear();
-        o.ii.push_str(i2);
-        o.si.clear();
-        o.si.push_str(s2);
+        // per entry point, back to back: the call, the same call again, then the same buffers
+        // overwritten in place (same addresses, same byte lengths, different content) and the call
+        // once more, compared with a fresh thread on fresh strings
         for (name, f) in &eps {
+            buf.clear();
+            buf.push_str(&t);
+            o.ii.clear();
+            o.ii.push_str(i1);
+            o.si.clear();
+            o.si.push_str(s1);
+            let a = call(*f, &buf, &o);
+            let b = call(*f, &buf, &o);
+            if a != b {
+                ctx.fail(clause_twice, format!("{}({}, {}) = {} the first time and {} the second time", name, crate::proto::show(&buf), o.show(), short(&a), short(&b)), None);
+                break;
+            }
+            ctx.oracle_ok();
+            let before = format!("{} / initial_indent {} / subsequent_indent {}", crate::proto::show(&buf), crate::proto::show(&o.ii), crate::proto::show(&o.si));
+            buf.clear();
+            buf.push_str(&twin);
+            o.ii.clear();
+            o.ii.push_str(i2);
+            o.si.clear();
+            o.si.push_str(s2);
             let c = call(*f, &buf, &o);
             let d = fresh(*f, &buf, &o);
             if c != d {
-                ctx.fail(clause_reuse, format!("{}({}, {}) = {} after the same entry points had been called on the same buffers holding {}; on a fresh thread it gives {}", name, crate::proto::show(&buf), o.show(), short(&c), before, short(&d)), None);
+                ctx.fail(clause_reuse, format!("{}({}, {}) = {} right after the same call on the same buffers holding {}; on a fresh thread it gives {}", name, crate::proto::show(&buf), o.show(), short(&c), before, short(&d)), None);
                 break;
             }
             ctx.oracle_ok();
